@@ -54,10 +54,3 @@ Proof.
   unfold softmax_out. cbv zeta. rewrite softmax_math by exact Hn.
   apply Rdiv_lt_0_compat; [apply exp_pos|apply expsum_pos; exact Hn].
 Qed.
-
-Lemma cross_entropy_bounds_proof n x : (1 <= n)%nat -> forall B, (forall k, (k < n)%nat -> Rabs (x k) <= B) ->
-  forall y, (y < n)%nat -> 0 <= cross_entropy_loss_forward n x y <= 2 * B + ln (INR n).
-Proof.
-  intros Hn B HB y Hy. unfold cross_entropy_loss_forward, nll_loss_forward. cbv zeta.
-  pose proof (log_softmax_range_proof n x Hn B HB y Hy). lra.
-Qed.
